@@ -64,6 +64,9 @@ type opDef struct {
 	later  bool // a rule-check slot AFTER the hotspot slot rejects this request
 	short  bool // only the first argument is passed (no value at index 1)
 	reload bool
+	// bc: batch count named by the request (0 = none named; -1 = an explicit 0). The rule counts entries, not
+	// tokens: the decision and the unit taken are the same whatever the batch count is
+	bc int
 }
 
 func (o opDef) String() string {
@@ -79,6 +82,9 @@ func (o opDef) String() string {
 		}
 		if o.short {
 			return fmt.Sprintf("E(%s,%q,one-argument)", o.res, o.val)
+		}
+		if o.bc != 0 {
+			return fmt.Sprintf("E(%s,%q,batch=%d)", o.res, o.val, map[bool]int{true: 0, false: o.bc}[o.bc < 0])
 		}
 		return fmt.Sprintf("E(%s,%q)", o.res, o.val)
 	}
@@ -303,6 +309,11 @@ func (s *scen) Apply(i int) (string, string) {
 	if o.later {
 		opts = append(opts, sentinel.WithFlag(9))
 	}
+	if o.bc > 0 {
+		opts = append(opts, sentinel.WithBatchCount(uint32(o.bc)))
+	} else if o.bc < 0 {
+		opts = append(opts, sentinel.WithBatchCount(0))
+	}
 	e, blk := sentinel.Entry(o.res, opts...)
 	obs := o.String() + "=P"
 	want := true
@@ -453,6 +464,7 @@ func mkOps() []opDef {
 	}
 	ops = append(ops, opDef{enter: true, res: "r1", val: "A", later: true})
 	ops = append(ops, opDef{enter: true, res: "r1", val: "A", short: true})
+	ops = append(ops, opDef{enter: true, res: "r1", val: "A", bc: 3}, opDef{enter: true, res: "r1", val: "A", bc: -1})
 	ops = append(ops, opDef{reload: true})
 	for k := 0; k < maxLive; k++ {
 		ops = append(ops, opDef{slot: k})
